@@ -64,6 +64,7 @@ type pObs struct {
 	Graph    pGraph          `json:"graph"`
 	Unmapped string          `json:"unmapped"`
 	Model    json.RawMessage `json:"model,omitempty"`
+	Repinned bool            `json:"repinned"` // some pin was replaced in place during the resolution (derived from the hook's pin counts)
 }
 
 func loadPipUniverse(c pCase, tb pTables) *resolve.LocalClient {
@@ -175,29 +176,39 @@ func cmdPip(args []string) error {
 		defer steps.Close()
 	}
 	for _, c := range cases {
-		if steps != nil {
-			stepGen++
-			gen := stepGen
-			stepBuf = []stepEv{{Ev: "start", Universe: c.Universe}}
-			pypi.VerifStep = func(name, ver, outcome string, pins int) {
-				if gen != stepGen {
-					return // an abandoned resolution still running
-				}
-				ev := "round"
-				if outcome == "done" {
-					ev = "done"
-				}
-				stepBuf = append(stepBuf, stepEv{Ev: ev, Name: name, V: vidx[ver], Outcome: outcome, Pins: pins})
+		// The hook always runs: from the reported pin counts the harness derives whether any pin was replaced in place during
+		// this resolution (a "pin" that does not grow the mapping), which the trace specification needs to tell the recorded
+		// stale-criteria deviation (C08-F24) from anything else.
+		stepGen++
+		gen := stepGen
+		stepBuf = []stepEv{{Ev: "start", Universe: c.Universe}}
+		lastPins, repinned := 0, false
+		pypi.VerifStep = func(name, ver, outcome string, pins int) {
+			if gen != stepGen {
+				return // an abandoned resolution still running
 			}
+			if outcome == "pin" && pins == lastPins {
+				repinned = true
+			}
+			lastPins = pins
+			if steps == nil {
+				return
+			}
+			ev := "round"
+			if outcome == "done" {
+				ev = "done"
+			}
+			stepBuf = append(stepBuf, stepEv{Ev: ev, Name: name, V: vidx[ver], Outcome: outcome, Pins: pins})
 		}
 		o := pObs{Universe: c.Universe, Root: c.Root, Graph: pGraph{Nodes: []pNode{}, Edges: []pEdge{}}, Model: c.Model}
 		lc := loadPipUniverse(c, tb)
 		g, err := guarded(func() (*resolve.Graph, error) {
 			return pypi.NewResolver(lc).Resolve(ctx, resolve.VersionKey{PackageKey: resolve.PackageKey{System: resolve.PyPI, Name: c.Root.Name}, VersionType: resolve.Concrete, Version: tb.Versions[c.Root.V-1]})
 		})
+		pypi.VerifStep = nil
+		stepGen++
+		o.Repinned = repinned
 		if steps != nil {
-			pypi.VerifStep = nil
-			stepGen++
 			for i := range stepBuf {
 				if e := steps.Write(&stepBuf[i]); e != nil {
 					return e
